@@ -30,6 +30,44 @@ func c02Set(n *LNode, class, alt string) {
 	}
 }
 
+// c02LineTokens: texts that occur on the line in another role (user field names, a dotted path of two of them, the
+// collection, the database, the namespace, the first operator key and the command verb).
+func c02LineTokens(cs *Case) []string {
+	var names, ops []string
+	seen := map[string]bool{}
+	cs.Root.Walk(nil, func(path []string, n *LNode) {
+		if n.Kind != JObj {
+			return
+		}
+		for i, k := range n.Keys {
+			if seen[k] || k == "" {
+				continue
+			}
+			seen[k] = true
+			if i < len(n.KeyLab) && (n.KeyLab[i] == KeyFN || n.KeyLab[i] == KeyFn) {
+				names = append(names, k)
+			} else if strings.HasPrefix(k, "$") && len(ops) < 1 {
+				ops = append(ops, strings.TrimLeft(k, "$")) // without the '$': with it the text would be a field reference, another class
+			}
+		}
+	})
+	var t []string
+	if len(names) > 0 {
+		t = append(t, names[0])
+	}
+	if len(names) > 1 {
+		t = append(t, names[len(names)-1], names[0]+"."+names[len(names)-1])
+	}
+	if cs.Coll != "" {
+		t = append(t, cs.Coll, cs.DB, cs.DB+"."+cs.Coll)
+	}
+	t = append(t, ops...)
+	if cs.Cmd != nil && len(cs.Cmd.Keys) > 0 {
+		t = append(t, cs.Cmd.Keys[0])
+	}
+	return t
+}
+
 func c02Run(c *Ctx) {
 	ns := "dbZq1.coQx7"
 	flagsQ := []Flags{{N: true, B: true}, {I: true, W: true, R: customReplacement, F: []string{ns}}}
@@ -81,6 +119,9 @@ func c02Run(c *Ctx) {
 				s.Str, s.Num, s.Bool = o.str, o.num, o.b
 			}
 		}
+		// contents taken from the line itself: a secret may happen to equal a field name, a dotted path of field names,
+		// the collection, the namespace, an operator of the line (anything the tool keeps a table of)
+		strAlphabet := append(append([]string{}, c02Alphabet[ClsStr]...), c02LineTokens(cs)...)
 		for _, fl := range fsets {
 			fl.Apply()
 			base, okb, pvb := redactLine(sc.Line)
@@ -151,6 +192,9 @@ func c02Run(c *Ctx) {
 						}
 					default:
 						a := c02Alphabet[s.Lab.Class]
+						if s.Lab.Class == ClsStr {
+							a = strAlphabet
+						}
 						if k := x.Costly(len(a)+1, "string content"); k > 0 {
 							s.Str = a[k-1]
 							desc += fmt.Sprintf("%s := %q; ", s.Lab.Class, trunc(a[k-1], 40))
@@ -210,7 +254,7 @@ func c02Run(c *Ctx) {
 func init() {
 	register(&PropDef{
 		ID: "C02", Level: "exploration",
-		Rule:        "every line skeleton of G at <=1 non-default production (thorough <=2) x placeholder-mode flag sets; for each skeleton the explorer enumerates the re-assignments of its SECRET leaves within their class: fillers jointly re-assigned or not x each focused literal taking every alternative of its class alphabet (9 ordinary strings incl. empty, 1.3 KB, JSON metacharacters, '@' without e-mail shape; 4 e-mails; 4 $date / $oid / base64 contents; 6 numbers under N; both booleans under B), up to 2 leaves deviating; oracle = byte-identical output. distinct = skeleton lines with at least one SECRET leaf" + scaleRule + streamLenRule,
+		Rule:        "every line skeleton of G at <=1 non-default production (thorough <=2) x placeholder-mode flag sets; for each skeleton the explorer enumerates the re-assignments of its SECRET leaves within their class: fillers jointly re-assigned or not x each focused literal taking every alternative of its class alphabet (21 ordinary strings incl. empty, 1.3 KB, JSON metacharacters, '@' without e-mail shape, output-shaped texts, plus up to 8 texts taken from the line itself - its user field names, a dotted path of them, collection, database, namespace, an operator, the verb; 4 e-mails; 4 $date / $oid / base64 contents; 6 numbers under N; both booleans under B), up to 2 leaves deviating; oracle = byte-identical output. distinct = skeleton lines with at least one SECRET leaf" + scaleRule + streamLenRule,
 		Assumptions: []string{"class membership follows DESIGN.md 3.0: borderline e-mail shapes are never used as members of a class", "encrypt and selective modes are outside the property"},
 		Run:         c02Run,
 	})
